@@ -27,8 +27,22 @@ def run(ctx):
     def nontrivial(o, c):
         return c["alias"]
     obs = run_rpc(ctx, "C03", "^TestVerifC03$", cases, nontrivial)
+    # last clause: getSignaturesForAddress for addresses without history, incl. ones aliasing a stored address in the
+    # pubkey-to-offset index (epoch with thousands of addresses; address index built by the real `index gsfa`)
+    if not ctx.replay:
+        from props.c10 import gsfa_fast_overlay
+        ov = ctx.overlay(main_files=["helpers_test.go", "arch_test.go", "rpc_test.go", "c07_test.go"], replace=gsfa_fast_overlay(ctx))
+        bm = ctx.go_build(".", ov, name="main_c03addr")
+        aobs = ctx.go_run(bm, "^TestVerifC03Address$", out="obs_addr.ndjson", timeout_s=3400)
+        arej = ctx.r4_judge(["GsfaPagingAbs", "Trace_GsfaPaging"], "Trace_GsfaPaging", aobs, timeout_s=1200)
+        for o in aobs:
+            ctx.count(sha(["addr", o["alias"], o["result"], len(ctx.nontrivial)]), o["alias"])
+        for i in arej:
+            o = aobs[i]
+            ctx.violation({"op": "getSignaturesForAddress", "alias": o["alias"]},
+                          f"getSignaturesForAddress for an address without history (aliasing={o['alias']}) returned signatures {o['result'][:5]} {o['err']}", obs=o)
+        ctx.extra["aliasing_addresses_requested"] = sum(1 for o in aobs if o["alias"])
     ctx.extra["aliasing_keys_requested"] = sum(1 for o in obs for c in o["calls"] if c["alias"])
     ctx.samples += [{"loaded": o["loaded"], "alias_calls": [c for c in o["calls"] if c["alias"]][:2]} for o in obs[:2]]
-    ctx.assumptions += ["getSignaturesForAddress for an aliasing absent address is checked by the C07 pipeline (address index needed)",
-                        "sig-exists (64-bit hashes) is treated as exact"]
+    ctx.assumptions += ["sig-exists (64-bit hashes) is treated as exact"]
     return ctx.finish("model_checking", "distinct = (archive, loaded epochs, method, protocol, key); non-trivial = absent key whose 24-bit in-bucket hash equals a stored key's (a real alias)")
